@@ -48,10 +48,11 @@ def model_programs(chk, tier, want):
     when want == 'programs', kept as histories when want == 'histories')."""
     quick = tier == "quick"
     cases = []
-    r = chk.tlc("J5CompileMC.tla", "J5Compile_quick.cfg", "focus1", workers=8, timeout=1200, heap="12g")
+    r = chk.tlc("J5CompileMC.tla", "J5Compile_quick.cfg", "focus1", workers=8, timeout=1200, heap="12g", coverage=True)
     check_model(chk, r, "J5Compile_quick")
+    chk.extra_cov["action_coverage"] = {k.split("@")[0][1:]: v for k, v in sorted(r.coverage.items()) if k.startswith("CAdd") or k.startswith("CNest")}
     cases += r.cases
-    chk.exhaustive = True
+    chk.exhaustive = True      # the one-focus space is enumerated and replayed completely (simulation adds samples on top)
     if not quick:
         r = chk.tlc("J5CompileMC.tla", "J5Compile_pairs.cfg", "focus2", workers=8, timeout=2400, heap="16g")
         check_model(chk, r, "J5Compile_pairs")
@@ -61,6 +62,7 @@ def model_programs(chk, tier, want):
             rng.shuffle(pairs)
             chk.notes.append("two-focus programs: %d model-checked, %d replayed (seeded sample)" % (len(pairs), 60000))
             pairs = pairs[:60000]
+            chk.exhaustive = False
         cases += pairs
         r = chk.tlc("J5CompileMC.tla", "J5Compile_deep.cfg", "deep", workers=8, timeout=2400, heap="16g")
         check_model(chk, r, "J5Compile_deep")
@@ -277,6 +279,7 @@ def run_c13(chk):
         rng.shuffle(leaf)
         chk.notes.append("%d maximal histories model-checked, %d replayed (seeded sample)" % (len(leaf), cap))
         leaf = leaf[:cap]
+        chk.exhaustive = False
     payload = []
     for c in leaf:
         pre = c["_pre"]
@@ -510,7 +513,13 @@ def selftest(prop):
         if v != "ok" or not done or done[0].get("drift") != 1:
             fail("recorded wrong type not counted as non-conformance (%s)" % v)
     elif prop == "C13":
-        leaf = chains(cases)[:80]
+        def has_two(c):
+            return any(d.get("kind") == "object" and len(d.get("fields", [])) >= 2
+                       for pk in c["ast"]["pkgs"] for fl in pk["files"] if fl.get("kind") != "proto" for d in fl["decls"])
+        allc = [c for c in r.cases if c["steps"] == 3 and has_two(c)]
+        for c in allc:
+            c["id"] = ast_id(c["ast"])
+        leaf = chains(allc)[:80]
         payload = []
         for c in leaf:
             pre, h = c["_pre"], c["hist"]
@@ -526,6 +535,8 @@ def selftest(prop):
             done_swap = False
             for pk in a["pkgs"]:
                 for fl in pk["files"]:
+                    if fl.get("kind") == "proto":
+                        continue
                     for d in fl["decls"]:
                         if d.get("kind") == "object" and len(d.get("fields", [])) >= 2 and not done_swap:
                             d["fields"][0], d["fields"][-1] = d["fields"][-1], d["fields"][0]
